@@ -36,6 +36,8 @@ def run(ctx):
     from .. import wrappers
     wrappers.fd_glue(ctx, rep, roles, "C11", "R11.6")
     wrappers.heartbeat_inc(ctx, rep, roles, "C11", "R11.7")
+    from .. import identity
+    identity.check(ctx, rep, "C11", "R11.8", ["hb-ord", "hb-clone", "id-eq", "id-hash"])
     r11_4(ctx, rep, roles)
 
 
